@@ -158,9 +158,6 @@ func fanScenario() {
 		// natively everything that can run has run by now: a device goroutine that is not through is stuck
 		stuck = !(a.done && b.done && c.done)
 	}
-	// recorded finding: run() blocks in `o <- e` on the full output of a device that stopped reading while
-	// holding the mutex DespawnOutput needs
-	verifrt.Known("fanout-despawn-deadlock", stuck && (verifrt.BlockedIn(").run") || !verifrt.Symbolic()))
 	verifrt.Assert(!stuck, "C15: removing a device always completes, even if that device has stopped reading")
 	if a.done && b.done {
 		verifrt.Cover("C15: both devices detached")
